@@ -952,6 +952,12 @@ class Walker:
             cont = And(cont, c)
         pc2 = And(pc, cont)
         val = self.model_call(n, fn, path, name, args, pc2)
+        # a call of type `!` (panic!, unreachable!, process::exit ..) does not come back: like `return`, the path ends here
+        try:
+            if self.tystr(n) == '!':
+                return ('never',), F
+        except Exception:
+            pass
         return val, cont
 
     def _lid(self, vid):
